@@ -4,7 +4,9 @@ package forward
 import (
 	"net/http"
 	"net/http/httputil"
+	"net/textproto"
 	"net/url"
+	"strings"
 
 	"github.com/vulcand/oxy/v2/utils"
 )
@@ -16,6 +18,10 @@ func New(passHostHeader bool) *httputil.ReverseProxy {
 	return &httputil.ReverseProxy{
 		Director: func(request *http.Request) {
 			modifyRequest(request)
+
+			// ReverseProxy drops the headers named in Connection only after the Director
+			// has returned, which would also drop the forwarding headers set below.
+			removeConnectionHeaders(request.Header)
 
 			h.Rewrite(request)
 
@@ -54,4 +60,27 @@ func getURLFromRequest(req *http.Request) *url.URL {
 		}
 	}
 	return u
+}
+
+// removeConnectionHeaders removes the headers listed in the Connection header (RFC 7230, section 6.1)
+// and their names from it. The Upgrade token is kept: ReverseProxy needs it to detect protocol switches.
+func removeConnectionHeaders(h http.Header) {
+	var keep []string
+	for _, f := range h[Connection] {
+		for _, sf := range strings.Split(f, ",") {
+			sf = textproto.TrimString(sf)
+			switch {
+			case sf == "":
+			case strings.EqualFold(sf, Upgrade):
+				keep = append(keep, sf)
+			default:
+				h.Del(sf)
+			}
+		}
+	}
+	if len(keep) == 0 {
+		h.Del(Connection)
+		return
+	}
+	h[Connection] = []string{strings.Join(keep, ", ")}
 }
